@@ -17,7 +17,9 @@ fp2_pck and written down here - it is *not* SEC 1's for prime curves):
                              y * R mod p with R the Montgomery radix (R = 1 when the field is not in
                              Montgomery form)                                     [ep_pck: fp_get_bit(p->y, 0)]
   ep,  pairing-friendly      bit = 1 iff y > (p - 1) / 2                           [ep_pck, IETF pairing draft]
-  ep2                        bit = 1 iff y1 > (p - 1) / 2, y = y0 + y1 u           [ep2_pck looks at y1 only]
+  ep2                        bit = sign(y1) if y1 != 0 else sign(y0), sign(t) = 1 iff t > (p - 1) / 2, y = y0 + y1 u
+                             [the rule ep2_upk documents (IETF pairing draft); ep2_pck looks at y1 only, which is the
+                             same bit except for points with y1 = 0 - those are a directed class of the check]
   eb                         bit = least significant bit of y / x                  [eb_pck, X9.62]
   ed                         bit = least significant bit of the internal representation of x   [ed_pck]
   fp2 (norm-1 elements)      a0 || one byte holding the least significant bit of the internal representation of a1
@@ -239,6 +241,48 @@ class GF2m(object):
 
     def enc(self, v):
         return v.to_bytes(self.nbytes, "big")
+
+
+def fp2_pow(F, a, e):
+    r = F.one
+    while e:
+        if e & 1:
+            r = F.mul(r, a)
+        a = F.mul(a, a)
+        e >>= 1
+    return r
+
+
+def fp2_cbrt(F, d, rng):
+    """a cube root of d in Fp2 (F an Fp2Coord) or None"""
+    if F.is_zero(d):
+        return F.zero
+    N = F.p * F.p - 1
+    if not F.eq(fp2_pow(F, d, N // 3), F.one):
+        return None
+    k, m = 0, N
+    while m % 3 == 0:
+        m //= 3
+        k += 1
+    e = pow(3, -1, m)
+    x0 = fp2_pow(F, d, e)
+    w = F.mul(F.mul(F.mul(x0, x0), x0), F.inv(d))        # x0^3 / d, in the 3-Sylow subgroup
+    if F.eq(w, F.one):
+        return x0
+    # generator of the 3-Sylow subgroup, then s with s^3 = w by exhaustive search (3^k is small)
+    while True:
+        h = (rng.randrange(F.p), rng.randrange(F.p))
+        if F.is_zero(h):
+            continue
+        g = fp2_pow(F, h, m)
+        if not F.eq(fp2_pow(F, g, 3 ** (k - 1)), F.one):
+            break
+    s = F.one
+    for _ in range(3 ** k):
+        if F.eq(F.mul(F.mul(s, s), s), w):
+            return F.mul(x0, F.inv(s))
+        s = F.mul(s, g)
+    return None
 
 
 def cubic_roots(a, b, p):
@@ -530,6 +574,11 @@ def selftest():
             else:
                 assert F.eq(F.mul(s, s), x)
         assert 3 <= nonsq <= 27
+    F = Fp2Coord(1000003, 3, -1)
+    for _ in range(10):
+        x = (rng.randrange(F.p), rng.randrange(F.p))
+        c = fp2_cbrt(F, F.mul(F.mul(x, x), x), rng)
+        assert c is not None and F.eq(F.mul(F.mul(c, c), c), F.mul(F.mul(x, x), x))
     # GF(2^283), NIST polynomial: inverse, squaring, quadratic solver, B-283 generator on curve
     f = (1 << 283) | (1 << 12) | (1 << 7) | (1 << 5) | 1
     G = GF2m(f)
